@@ -69,6 +69,8 @@ type Stream struct {
 	Closed    int
 	Seeks     int // Seek calls (seekable wrapper only)
 	MaxPos    int // furthest position ever reached
+	ReadAts   int // ReadAt calls
+	HandedAt  int // bytes handed out through ReadAt (the position does not move)
 }
 
 // Pos is the current read position.
@@ -104,6 +106,39 @@ func (s *Stream) Seek(off int64, whence int) (int64, error) {
 	}
 	s.SawEOF = false
 	return np, nil
+}
+
+// ReadAt implements io.ReaderAt over the same content and fault: the position
+// is not moved; the bytes of [off, off+len(p)) that lie before the fault offset
+// (or the end) are delivered, and a short result carries the injected error or
+// io.EOF. A full result carries a nil error.
+func (s *Stream) ReadAt(p []byte, off int64) (int, error) {
+	s.Calls++
+	s.ReadAts++
+	end := len(s.Data)
+	faulty := s.D.FaultAt >= 0 && s.D.FaultAt <= len(s.Data)
+	if faulty {
+		end = s.D.FaultAt
+	}
+	if len(p) == 0 {
+		return 0, nil
+	}
+	n := 0
+	if off < int64(end) {
+		n = copy(p, s.Data[off:end])
+	}
+	if int(off)+n > s.MaxPos {
+		s.MaxPos = int(off) + n
+	}
+	s.HandedAt += n
+	if n == len(p) {
+		return n, nil
+	}
+	if faulty {
+		s.Faulted = true
+		return n, s.injected()
+	}
+	return n, io.EOF
 }
 
 func (s *Stream) nextChunk(want int) int {
